@@ -498,7 +498,7 @@ def designed (mode : Mode) : Region → List DSig
   | .plainType => [.exc .TypeError, .exc .ValueError]
   | .checkType => [.exc .TypeError, .exc .ValueError]
   | .vocPath => [.exc .TypeError]
-  | .adapt => [.exc .ValueError]                     -- raise_unexpected_value
+  | .adapt => [.exc .ValueError, .exc .TypeError, .exc .KeyError]  -- raise_unexpected_value; values of the wrong shape (unhashable, malformed keys)
   | .annotated => [.exc .Exception]
   | .registered => [.deser]
   | .enumLookup => [.exc .KeyError, .exc .TypeError]
